@@ -267,7 +267,19 @@ def build_props_cone(pid):
     if pb["ok"] and not changed and (rec is None or rec["srchash"] != sources_hash() or rec.get("theorems") != pb["theorems"]):
         record_proved(pid, pb)
     rec = load_proved().get(pid)
-    if rec:
+    if pb["ok"] and changed:
+        # no valid baseline record (the hand-written sources changed since setup): compute the cone now
+        deps = theorem_deps(pid, pb["theorems"]) or []
+        under = sorted(set(st["underived"]) & set(deps))
+        pb["cone"] = {"deps": len(deps), "changed": sorted(changed), "hit": sorted(changed & set(deps))}
+        if under:
+            pb["ok"] = False
+            pb["failing"] = "Gen: " + ", ".join(under)
+            pb["error"] = ("the translator could not re-derive %s from /repo/src; the theorems of Props/%s.v depend on it"
+                           % (", ".join(under), pid))
+            pb["assumptions"] = {}
+            pb["mode"] = "cone hit (not re-derived)"
+    elif rec:
         pb["cone"] = {"deps": len(rec["deps"]), "changed": sorted(changed), "hit": sorted(changed & set(rec["deps"]))}
     return pb
 
